@@ -10,6 +10,7 @@ from .contracts_tt import _is_tt, check_returned
 from .dense import dense_cores, tt_consistent, dense_b_cores
 
 P = 'C15'
+LAST_HOCUR = {'exact': None}  # whether the last hocur call reproduced its tensor (used by the AMUSEt-HOCUR contract)
 
 
 def product_tensor(factors):
@@ -144,6 +145,7 @@ class Hocur(probe.Contract):
         c = core.ctx()
         check_returned(self.api, res)
         v = parse(['x', 'basis_list', 'ranks', 'repeats', 'multiplier', 'progress', 'string'], {'repeats': 1, 'multiplier': 10}, args, kwargs)
+        LAST_HOCUR['exact'] = None
         x, bl = np.asarray(v['x']), v['basis_list']
         m = x.shape[1]
         n = [len(f) for f in bl]
@@ -155,9 +157,13 @@ class Hocur(probe.Contract):
         p = len(n)
         # true TT ranks of the transformed data tensor
         true = [1]
+        smin_rel = 1.0
         for k in range(1, p + 1):
             s = np.linalg.svd(want.reshape(int(np.prod(n[:k])), -1), compute_uv=False)
-            true.append(int(np.sum(s > 1e-10 * max(s[0], 1e-300))))
+            r = int(np.sum(s > 1e-10 * max(s[0], 1e-300)))
+            true.append(r)
+            if r > 0:
+                smin_rel = min(smin_rel, float(s[r - 1] / max(s[0], 1e-300)))
         true.append(1)
         req = v['ranks'] if isinstance(v['ranks'], list) else [1] + [v['ranks']] * p + [1]
         req = [min(int(r), m) for r in req]
@@ -173,8 +179,10 @@ class Hocur(probe.Contract):
         got = dense_cores(res.cores).reshape(want.shape)
         sc = max(float(np.linalg.norm(want)), 1e-300)
         err = float(np.linalg.norm(got - want)) / sc
-        c.check(self.api, 'reproduces_tensor_when_ranks_suffice', err <= 1e-6, ['snapshots=1' if m == 1 else 'snapshots>1'],
-                {'rel_err': err, 'modes': n, 'snapshots': m, 'true_ranks': true, 'requested': req, 'returned': got_r}, prop=P)
+        LAST_HOCUR['exact'] = err <= 1e-10
+        # a cross approximation recovers the directions belonging to small singular values only up to eps / sigma_min
+        c.check(self.api, 'reproduces_tensor_when_ranks_suffice', err <= 1e-7 + 1e-10 / smin_rel, ['snapshots=1' if m == 1 else 'snapshots>1'],
+                {'rel_err': err, 'smallest_relative_singular_value': smin_rel, 'modes': n, 'snapshots': m, 'true_ranks': true, 'requested': req, 'returned': got_r}, prop=P)
         c.events['hocur_decided'] += 1
         c.sig(self.api, n, m, true, v['repeats'], v['multiplier'])
 
